@@ -11,7 +11,9 @@ class C14(SeqProp):
     rule = ("scenarios as for C07 (1-8 collectors of all kinds in 1-3 name families, children, updates, the same set registered in "
             "different orders on 2-3 fresh registries, back-to-back gathers); in about half of them some collectors deliberately take "
             "another kind (counter / gauge / histogram) than the rest of their family - same name, help and label names, other "
-            "constant-label values - which registration accepts; non-trivial = at least two gathers and two samples; "
+            "constant-label values - which registration accepts; in 15 % a user-written collector sharing a descriptor with a registered one is "
+            "unregistered (must fail and release nothing) and an equal twin of another kind / another overlapping collector is registered (must be "
+            "refused); non-trivial = at least two gathers and two samples; "
             "distinct = distinct scenario text")
     assumptions = ["known finding C14-mixed-kinds: a Desc carries no metric type, so collectors of different kinds may be registered under "
                    "one name; gather() then merges them into one family typed after whichever collector its HashMap yields first. "
